@@ -26,11 +26,13 @@ TInit == InitWith({}, FALSE) /\ l = 1
 
 IsEvent(e) == l <= Len(TraceLog) /\ TraceLog[l].e = e /\ l' = l + 1
 
+\* a fresh handle (Reset) or the same handle given to another constructor without lzma_end() (Reinit event)
 TReset == /\ IsEvent("Reset")
           /\ LET t == TraceLog[l] IN
              /\ inited' = t.inited /\ supported' = SupportedActions(t.coder)
              /\ seq' = "RUN" /\ savedIn' = 0 /\ allowBuf' = FALSE /\ totalIn' = 0 /\ totalOut' = 0
              /\ obs' = NoObs
+TReinit == IsEvent("Reinit") /\ Reinit(SupportedActions(TraceLog[l].coder))
 
 TCall == /\ IsEvent("Call")
          /\ LET t == TraceLog[l] IN
@@ -40,7 +42,7 @@ TCall == /\ IsEvent("Call")
             /\ obs'.uin = t.uin /\ obs'.uout = t.uout
             /\ totalIn' = t.tin /\ totalOut' = t.tout
 
-TNext == TReset \/ TCall
+TNext == TReset \/ TReinit \/ TCall
 TSpec == TInit /\ [][TNext]_<<vars, l>>
 TView == <<vars, l>>
 TraceAccepted == TLCGet("stats").diameter - 1 = Len(TraceLog)
